@@ -392,14 +392,6 @@ def FewDigits (c : Cfg) (F : FTy) (n : Number) : Prop :=
   ∀ d, (Slow.envOf c.feats).S.maxDigits F.fmt 10 = some d →
     (sigBytes n.integer n.fraction).length ≤ d ∨ Slow.anyNonzero ((sigBytes n.integer n.fraction).drop d) = false
 
-/-- the estimate `lemire` hands to `negative_digit_comp` rounds down to a finite float (it can fail to only for a value of
-at least `2^(emax+1)` written with more than `emax·log 2` integer digits on which `lemire` does not answer infinity itself) -/
-def FiniteEstimate (c : Cfg) (F : FTy) (n : Number) : Prop :=
-  ∀ fp d, Lemire.lemire F (numOf n) false = .ok fp → fp.exp < 0 →
-    (Slow.envOf c.feats).S.maxDigits F.fmt 10 = some d →
-    C01Slow.digitExponent (sciOf c n) (C01Slow.mantissaOf 10 d (sigBytes n.integer n.fraction)).2 < 0 →
-    C01Slow.roundedDown F { fp with exp := fp.exp - invalidFp } < F.fmt.infBits
-
 /-- **a truncated decimal `Number`, decided or not**: `lemire` answers (no panic); a valid answer is right
 (`numberToFloat_truncated_decided`); an invalid-marked one is an estimate of `w·10^q` from inside the table
 (`C01Trunc.lemire_truncated`), with which the slow-path model returns the float nearest to the value of all the digits
@@ -414,7 +406,7 @@ theorem numberToFloat_truncated {F : FTy} (hF : IsLemireFloat F) (c : Cfg)
       ((n.fraction.getD []).length : Int))
     (hE1 : -(2 ^ 40 : Int) ≤ n.explicitExp) (hE2 : n.explicitExp ≤ 2 ^ 40)
     (hl1 : n.integer.length < 2 ^ 60) (hl2 : (n.fraction.getD []).length < 2 ^ 60)
-    (hfew : FewDigits c F n) (hfin : FiniteEstimate c F n) :
+    (hfew : FewDigits c F n) :
     numberToFloat slowModel c F n false = some (numberBits c F.fmt n) := by
   have hw0 : n.mantissa ≠ 0 := by
     have : 0 < 10 ^ 18 := Nat.pow_pos (by decide)
@@ -432,7 +424,7 @@ theorem numberToFloat_truncated {F : FTy} (hF : IsLemireFloat F) (c : Cfg)
     obtain ⟨hq1, hq2, p, eb, lay, hest⟩ := hfacts hinv
     obtain ⟨d, hd, hd19, hd769⟩ := C01Trunc.maxDigits_decimal_le c.feats hF
     obtain ⟨D, hbr⟩ := C01Trunc.slowDomain_of_truncated hF lay c hr hb n hs hN hw hw1 hwlt hq hq1 hq2 fp hest d hd
-      hd19 hd769 (hfew d hd) (hfin fp d hm hinv hd)
+      hd19 hd769 (hfew d hd)
     -- the specification side
     have hbits : numberBits c F.fmt n = litBits F.fmt 10 10 (numberLit c n) := by
       unfold numberBits numberLit
@@ -465,17 +457,15 @@ theorem numberToFloat_truncated {F : FTy} (hF : IsLemireFloat F) (c : Cfg)
 the two-pass wrapper decides: non-`compact` build, radix 10, separator-free format class, `f32`/`f64`, complete and
 partial parser. `parseFloatAlgoModel slowModel` — syntax → `try_fast_path` → `lemire` (both passes, `compute_error`) →
 `slow_radix` (`parse_mantissa`, `positive_digit_comp` / `negative_digit_comp`, big-integer arithmetic with its capacity
-checks) → `to_native` — prints what the specification prints. Residual hypotheses, both about truncated `Number`s only:
-`hfew` (at most `max_digits` significant digits, or zeros beyond) and `hfin` (`FiniteEstimate`). -/
+checks) → `to_native` — prints what the specification prints. The one residual hypothesis concerns truncated `Number`s
+only: `hfew` (at most `max_digits` significant digits — 769 for `f64`, 114 for `f32` — or zeros beyond). -/
 theorem C01_decimal_correct_slow (feats : Features) (hcompact : feats.compact = false) (fmt : Format)
     (hr : fmt.mantissaRadix = 10) (hb : fmt.exponentBase = 10)
     (hclass : feats.format = false ∨ C12.SepPrefixFree fmt)
     (o : POpts) {F : FTy} (hF : IsLemireFloat F) (isPartial : Bool) (s : List Nat)
     (h256 : ∀ x ∈ s, x < 256) (hlen : s.length < 2 ^ 60)
     (hfew : ∀ n cnt, parseFloatSyntax ⟨feats, fmt, false⟩ o isPartial s (formatError feats fmt).isNone =
-      .ok (.number n cnt) → n.manyDigits = true → FewDigits ⟨feats, fmt, false⟩ F n)
-    (hfin : ∀ n cnt, parseFloatSyntax ⟨feats, fmt, false⟩ o isPartial s (formatError feats fmt).isNone =
-      .ok (.number n cnt) → n.manyDigits = true → FiniteEstimate ⟨feats, fmt, false⟩ F n) :
+      .ok (.number n cnt) → n.manyDigits = true → FewDigits ⟨feats, fmt, false⟩ F n) :
     parseFloatAlgoModel slowModel feats fmt o isPartial F s = parseFloatModel feats fmt o isPartial F.fmt s := by
   apply parseFloatAlgoModel_eq_valid
   intro hval n cnt hp
@@ -492,14 +482,14 @@ theorem C01_decimal_correct_slow (feats : Features) (hcompact : feats.compact = 
     obtain ⟨hs, hN, hw, hw1, hwlt, hq, hE1, hE2, hl1, hl2⟩ := C01Number.number_truncated_of_syntax ⟨feats, fmt, false⟩ rfl
       hclass hr hb o hdp isPartial s _ h256 hlen n cnt hp hmany
     exact numberToFloat_truncated hF ⟨feats, fmt, false⟩ hcompact hr hb n hmany hs hN hw hw1 hwlt hq
-      hE1 hE2 hl1 hl2 (hfew n cnt hp hmany) (hfin n cnt hp hmany)
+      hE1 hE2 hl1 hl2 (hfew n cnt hp hmany)
 
 /-- **full statement** (a `Prop`): the same for **every** input, truncated mantissas (more than 19 significant digits)
 included, and for `compact` builds. Proved towards it: untruncated inputs (`C01_decimal_correct`), truncated inputs on
 which the two-pass wrapper decides (`C01_decimal_correct_all`), and truncated inputs handed to the slow path
-(`C01_decimal_correct_slow`) with at most `max_digits` significant digits and a finite round-down of the estimate. Missing:
-`Props.C01Slow.truncation_invariant` (a non-zero cut tail beyond `max_digits`), the `b = ∞` case of `negative_digit_comp`
-(`FiniteEstimate`), and `compact` builds (the Bellerophon analogue of `lemire_estimate_facts`). -/
+(`C01_decimal_correct_slow`) with at most `max_digits` significant digits. Missing:
+`Props.C01Slow.truncation_invariant` (a non-zero cut tail beyond `max_digits`) and `compact` builds (the Bellerophon
+analogue of `lemire_estimate_facts`). -/
 def C01_decimal_full : Prop :=
   ∀ (feats : Features) (fmt : Format), fmt.mantissaRadix = 10 → fmt.exponentBase = 10 →
     (feats.format = false ∨ C12.SepPrefixFree fmt) →
